@@ -99,8 +99,9 @@ class Pending:
 def lattice_phase(ck, pend, pid, prop, binary, tier):
     """TLC on the lattice model, then replay of every emitted case.  Returns totals."""
     size = 1 if tier == "quick" else 2
-    procs = 8 if tier == "quick" else 6
-    workers = 2 if tier == "quick" else max(2, vlib.NCPU // 4)
+    # about NCPU threads in total (vlib.NCPU honours the development throttle)
+    workers = 2 if vlib.NCPU >= 4 else 1
+    procs = max(1, min(8, vlib.NCPU // workers))
     jobs = [(pid, sp, size, prop, workers) for sp in ORDER]
     with concurrent.futures.ProcessPoolExecutor(max_workers=procs) as ex:
         results = list(ex.map(_emit, jobs))
@@ -116,7 +117,7 @@ def lattice_phase(ck, pend, pid, prop, binary, tier):
     def rep(r):
         return r, run_cmd([binary, "replay%02d" % prop, r["path"]], timeout=3000)
 
-    with concurrent.futures.ThreadPoolExecutor(max_workers=8) as ex:
+    with concurrent.futures.ThreadPoolExecutor(max_workers=max(1, min(8, vlib.NCPU))) as ex:
         replays = list(ex.map(rep, results))
     for r, (rc, out, err) in replays:
         summ = _parse(out, "SUMMARY")
@@ -212,8 +213,8 @@ def validate_trace_file(pid, path):
 
 
 def key_of(v):
-    if v["law"] == "in-bounds-plus-pi":
-        return D2_KEY
+    if v["law"] == "in-bounds-plus-pi" and "KleinBottle" not in v["space"]:
+        return D2_KEY   # the Klein bottle re-wraps v with its own copy of the code: kept under its own key
     k = "%s:%s" % (v["space"], v["law"])
     return k + (":" + v["tag"] if v["tag"] else "")
 
@@ -237,7 +238,7 @@ def trace_phase(ck, pend, pid, prop, binary, tier):
     if missing:
         raise FrameworkError("vacuity gate: probe classes never recorded: %s" % missing)
     parts = _split_trace(tpath, 6 if tier == "quick" else 12)
-    with concurrent.futures.ProcessPoolExecutor(max_workers=6) as ex:
+    with concurrent.futures.ProcessPoolExecutor(max_workers=max(1, min(6, vlib.NCPU))) as ex:
         vals = list(ex.map(_validate, [(pid, p) for p in parts]))
     cnt = {}
     lines = 0
